@@ -92,6 +92,17 @@ partial def mainLoop (h : IO.FS.Stream) (pending : Option String) : IO Unit := d
         mainLoop h nxt
       | none => IO.println "bad-family"; mainLoop h none
     | none => IO.println "bad-alg"; mainLoop h none
+  | ["PAD", alg, total, fill] =>
+    -- `hash_pad` of the model on a 2B-byte buffer with content `buf[j] = (j*37 + fill) mod 256`
+    -- (tools/gen_hashpad.py correspondence: the C `hash_pad` of every ctx file gets the same buffer)
+    match inst alg, total.toNat?, fill.toNat? with
+    | some I, some t, some f =>
+      let A := I.A
+      let buf : Bytes := (List.range (2 * A.B)).map fun j => UInt8.ofNat (j * 37 + f)
+      let bl := IsalVerif.HashMB.hashPad A.B A.L A.lenBE buf t
+      IO.println s!"PAD {bl.length} {hexOf bl.flatten}"
+    | _, _, _ => IO.println "bad-op"
+    mainLoop h none
   | [] => mainLoop h none
   | _ => IO.println "bad-op"; mainLoop h none
 
